@@ -1,6 +1,9 @@
 (* C06, rtpfragmented — statements only *)
 From GVL Require Import NList Rtp.
-From GV_frag Require Import Model Proofs.
+From Coq Require Import ZArith.
+From GVL Require Import Chunks.
+From GVG Require Import Kern.
+From GV_frag Require Import Model Proofs Bridge.
 Open Scope N_scope.
 
 (* every payload is non-empty and within the limit, the payloads concatenate to the frame, the
@@ -26,3 +29,24 @@ Example C06_frag_example :
   map pseq (concat (enc_many 2 65534 [[1;2;3]; [4]; [5;6]])) = [65534; 65535; 0; 1]
   /\ map pmarker (concat (enc_many 2 65534 [[1;2;3]; [4]; [5;6]])) = [false; true; true; true].
 Proof. split; reflexivity. Qed.
+
+(* THE TRANSLATED TIE.  GVG.Kern is regenerated from the Go source on every run by tools/go2coq; k_*_packetCount are
+   the eight copies of packetCount(avail, le) (pkg/format/rtpfragmented, rtph264, rtph265, rtpac3, rtpmpeg4audio,
+   rtpmpeg1video, rtpmpeg1audio and the LPCM encoder's method), with Go's int arithmetic and truncated division made
+   explicit.  For every positive payload budget and every frame length below 2^63 each of them returns
+   ceil(le / avail), and that is the number of pieces the models' [chunks] cuts a frame into - the packet count
+   that C06_*_packets_wellformed speak of. *)
+Theorem C06_frag_packet_counts_are_the_code :
+  (pc_spec k_frag_packetCount /\ pc_spec k_h264_packetCount /\ pc_spec k_h265_packetCount /\ pc_spec k_ac3_packetCount /\
+   pc_spec k_mpeg4audio_packetCount /\ pc_spec k_mpeg1video_packetCount /\ pc_spec k_mpeg1audio_packetCount /\
+   pc_spec (fun avail le => k_lpcm_packetCount le avail)) /\
+  (forall (f : Z -> Z -> option Z) (n : N) (frame : list N), pc_spec f ->
+     0 < n < 9223372036854775808 -> nlen frame < 9223372036854775808 ->
+     f (Z.of_N n) (Z.of_N (nlen frame)) = Some (Z.of_N (nlen (chunks n frame)))).
+Proof. split; [exact packet_counts_are_the_code|intros f n frame; exact (packet_count_is_chunk_count f n frame)]. Qed.
+Print Assumptions C06_frag_packet_counts_are_the_code.
+
+Example C06_frag_example_kernel :
+  k_frag_packetCount 1460 1461 = Some 2%Z /\ k_h264_packetCount 1458 1458 = Some 1%Z /\ k_lpcm_packetCount 0 1440 = Some 0%Z /\
+  k_frag_packetCount 0 10 = None.
+Proof. vm_compute. repeat split. Qed.
